@@ -121,6 +121,62 @@ def run(rep, tier, seed):
             exp_w = list(nrn["w"]) if nrn["negw"] else [max(Fr(0), w) for w in nrn["w"]]
             if b != max(Fr(0), nrn["b"]) or ws != exp_w:
                 rep.violation("projection", {"neuron": streams.ser(nrn), "got": o}, {"neuron": streams.ser(nrn)})
+    # ---- the built-in losses on first-order models (tables with crossing and non-crossing rows side by side)
+    import fol
+    from common import parse_q as pq
+    fcases = []
+    for k in range(size(tier, 60, 1200)):
+        rng = random.Random(sub_seed(seed, "c18fol", k))
+        kbd = fol.gen_fol_kb(rng, n_preds=(2, 3), n_conn=(1, 3), max_arity=2, quant=False, worlds=True)
+        facts, nc = fol.gen_facts(rng, kbd, n_consts=(2, 3), density=0.7, classical_p=0.5, crossed_p=0.25)
+        labels = []
+        for p_ in kbd["preds"]:
+            if rng.random() < 0.5:
+                labels.append((p_["id"], [rng.randrange(nc) for _ in range(p_["arity"])]) + rng.choice([(Fr(1), Fr(1)), (Fr(0), Fr(0)), (Fr(1, 2), Fr(1))]))
+        fcases.append({"kb": kbd, "facts": facts, "labels": labels, "n_consts": nc,
+                       "coeffs": (rng.choice([Fr(1), Fr(2), Fr(1, 2)]), rng.choice([Fr(1), Fr(1, 2)]), rng.choice([Fr(1), Fr(2)]))})
+    frecs, fdis = streams.run_fol_stream(rep, "fol-losses", fcases, None, fn="run_fol_losses")
+    if fdis is not None:
+        first = first or (fdis, fdis["disagreements"])
+    mixed = 0
+    for r in frecs:
+        if "crash" in r:
+            continue
+        m = r["meta"]
+        cc, uc, sc = r["prog"]["coeffs"]
+        exp_c = exp_u = Fr(0)
+        has_mixed = False
+        for i in m["registered"]:
+            rows = m["tables"].get(i, m["tables"].get(str(i), {}))
+            a = pq(m["alpha"].get(i, m["alpha"].get(str(i))))
+            flags = []
+            for g, (lo, hi) in rows.items():
+                lo, hi = pq(lo), pq(hi)
+                contra = lo > hi and not (lo <= 1 - a and hi <= 1 - a) and not (lo >= a and hi >= a)
+                flags.append((contra, lo, hi))
+            exp_c += sum(cc * (lo - hi) for c_, lo, hi in flags if c_)
+            if not any(c_ for c_, _, _ in flags):
+                exp_u += sum(uc * (hi - lo) for _, lo, hi in flags)
+            has_mixed = has_mixed or (any(c_ for c_, _, _ in flags) and any((not c_) and hi > lo for c_, lo, hi in flags))
+        mixed += has_mixed
+        rep.count_case("folloss" + streams.canon(r["prog"]), has_mixed)
+        crossing = any(pq(b[0]) > pq(b[1]) for rows in m["tables"].values() for b in rows.values())
+        got_c, got_u = pq(m["closs"]), pq(m["uloss"])
+        bad = None
+        if got_c != exp_c:
+            bad = {"problem": "contradiction loss differs from the sum of (L-U) over the contradictory rows", "expected": str(exp_c), "got": str(got_c)}
+        elif got_c < 0:
+            bad = {"problem": "negative contradiction loss", "got": str(got_c)}
+        elif (got_c == 0) == crossing and all(pq(a_) == 1 for a_ in m["alpha"].values()):
+            bad = {"problem": "contradiction loss is zero although bounds cross (or non-zero although none cross)", "got": str(got_c), "crossing": crossing}
+        elif got_u != exp_u:
+            bad = {"problem": "uncertainty loss differs from its definition", "expected": str(exp_u), "got": str(got_u)}
+        elif "sloss" in m and pq(m["sloss"]) < 0:
+            bad = {"problem": "negative supervised loss", "got": m["sloss"]}
+        if bad:
+            rep.violation("fol-loss", bad, {"case": streams.ser(r["prog"]), "failure": bad})
+    rep.extra["fol_loss_cases_with_crossing_and_open_rows_in_one_table"] = mixed
+    ndis += 1 if fdis is not None else 0
     rep.obligation("correspondence:train", ndis == 0, f"{len(recs)} training runs ({len(scripted)} scripted), {ncmp} lines compared, {ndis} disagree")
     rep.extra["runs_where_projection_clamped_a_weight"] = proj
     rep.cov["rule"] = ("small propositional models (1-3 connectives), dyadic facts and labels, every combination of the contradiction / supervised / "
@@ -130,9 +186,18 @@ def run(rep, tier, seed):
                        "up to 1) and is judged by the oracle only (facts/labels untouched, finite, projection postcondition, final = "
                        "reset_bounds()+infer(), loss signs); non-trivial = >= 2 optimiser steps and a projection that really clamped")
     if first and not rep.violations:
-        rep.extra["first_disagreement"] = {"case": streams.ser(first[0].get("prog", {})), "at": first[1][:2]}
+        rep.extra["first_disagreement"] = {"case": streams.ser(first[0].get("prog", {})), "at": [list(x)[:4] for x in first[1][:2]]}
 
 
 def replay(obj):
-    print(obj["detail"])
-    return 0
+    case = streams.fix_prog(obj["replay"].get("case", {}))
+    if not case:
+        print(obj["detail"])
+        return 0
+    for k in ("data", "labels"):
+        case[k] = [tuple(x) for x in case[k]]
+    case["script"] = {int(e): {int(i): (v[0], v[1]) for i, v in d.items()} for e, d in case["script"].items()}
+    rec = engine.run_cases("train", "run_train", [case], jobs=1)[0]
+    bad = oracle(rec, case) if "crash" not in rec else {"crash": rec["crash"]}
+    print("REPRODUCED" if bad else "not reproduced", bad)
+    return 1 if bad else 0
